@@ -54,7 +54,7 @@ Proof. destruct h as [f r1 r2 r3 o ms ky pl]; cbn; intros; subst; reflexivity. Q
 Theorem dec_enc : forall h rest, wf_hdr h -> dec_hdr (enc_hdr h ++ rest) = DecOk h rest.
 Proof.
   intros h rest (Ho & Hp & Hk & Hz).
-  unfold enc_hdr. cbn [app]. unfold dec_hdr. cbv zeta.
+  unfold enc_hdr. cbn [app]. unfold dec_hdr, dec_ext. cbv zeta.
   rewrite b0_fin, b0_opc, b0_rsv1, b0_rsv2, b0_rsv3 by assumption.
   assert (M : (128 <=? enc_b1 h) = h_masked h).
   { unfold enc_b1, bit. destruct (h_masked h); destruct (N.ltb_spec 65535 (h_plen h)); destruct (N.ltb_spec 125 (h_plen h)); lia. }
